@@ -326,6 +326,11 @@ class Builder:
         self._build_cmds_return_registers()
         if len(self._pending_commands) > 0:
             commands = self.subrt_pop_all_pending_commands()
+            # The operations that were taken are no longer pending: their arrays and
+            # registers are not declared and returned again. Done here, where they are
+            # taken, and not when the subroutine is sent: operations that are queued
+            # in between (or by a completion callback) belong to the next subroutine.
+            self._reset()
             return ProtoSubroutine(
                 commands=commands, netqasm_version=NETQASM_VERSION, app_id=self.app_id
             )
